@@ -4,13 +4,14 @@
    Full statement (kept visible; the oracle of Spec/C20.v is its executable form):
      forall h, in_scope h = true -> exists tr, run h = Some tr /\ oracle h tr = true
    (h: any sequence of ADDRMAP lines, clock advances, lookups and listener registrations.)
-   It is FALSE of the faithful model -- and of the code -- on three input classes, each an open
+   It is FALSE of the faithful model -- and of the code -- on two input classes, each an open
    finding with a witness below (C20_*_refuted):
-     C20-F1 unheld_error   an <error> mapping for a name that is not held: 'expired' then 'added'
      C20-F2 key_collision  a string used both as a name and as an address: entries overwrite each other
      C20-F3 stale_lookup   a lookup right after a mapping that arrived already expired, before time passes
-   C20_oracle_partial proves the full statement for ALL histories outside these three classes (its
-   three extra hypotheses are exactly the complements of the finding predicates of Spec/C20.v).
+   (C20-F1, an <error> mapping for a name that is not held, was repaired in /repo by a1d3211; the
+   model follows the repaired code and that class is now covered by C20_oracle_partial.)
+   C20_oracle_partial proves the full statement for ALL histories outside these two classes (its
+   two extra hypotheses are exactly the complements of the finding predicates of Spec/C20.v).
    The remaining theorems state the clauses of the property one by one, for all histories, with
    only the hypotheses each clause needs. *)
 From Coq Require Import List Bool Ascii Arith NArith ZArith.
@@ -18,31 +19,25 @@ From TxVerif Require Import Lib.Bytes Spec.C20 Model.AddrMap Proofs.C20Proofs.
 Import ListNotations.
 
 Theorem C20_oracle_partial : forall h,
-  in_scope h = true -> key_collision h = false -> unheld_error h = false -> stale_lookup h = false ->
+  in_scope h = true -> key_collision h = false -> stale_lookup h = false ->
   exists tr, run h = Some tr /\ oracle h tr = true.
 Proof. exact model_satisfies_oracle. Qed.
 Print Assumptions C20_oracle_partial.
 
-Theorem C20_unheld_error_refuted : exists h,
-  in_scope h = true /\ key_collision h = false /\ stale_lookup h = false /\
-  exists tr, run h = Some tr /\ oracle h tr = false.
-Proof. exact unheld_error_refuted_ex. Qed.
-Print Assumptions C20_unheld_error_refuted.
-
 Theorem C20_key_collision_refuted : exists h,
-  in_scope h = true /\ unheld_error h = false /\ stale_lookup h = false /\
+  in_scope h = true /\ stale_lookup h = false /\
   exists tr, run h = Some tr /\ oracle h tr = false.
 Proof. exact collision_refuted_ex. Qed.
 Print Assumptions C20_key_collision_refuted.
 
 Theorem C20_stale_lookup_refuted : exists h,
-  in_scope h = true /\ unheld_error h = false /\ key_collision h = false /\
+  in_scope h = true /\ key_collision h = false /\
   exists tr, run h = Some tr /\ oracle h tr = false.
 Proof. exact stale_refuted_ex. Qed.
 Print Assumptions C20_stale_lookup_refuted.
 
 (* The map finds exactly the names the reference semantics HOLDS, with the latest address and
-   expiry: full strength up to F2 (no F1 / F3 hypothesis). *)
+   expiry: full strength up to F2 (no F3 hypothesis). *)
 Theorem C20_find_name_held_partial : forall h n m,
   in_scope h = true -> key_collision h = false -> In n (ev_names h) -> state_after h = Some m ->
   find m n = match s_map (spec_after h) n with
@@ -119,7 +114,7 @@ Print Assumptions C20_model_total.
 Example C20_nonvacuous :
   let h := [OAddL 1; OEv [W n_a; W ip1; T 1382400; X 1382400]; OEv [W n_a; W ip1; T 40; X 40];
             OAdvance 39; OFind (str n_a); OAdvance 1; OFind (str n_a); OFind (str ip1)] in
-  in_scope h = true /\ key_collision h = false /\ unheld_error h = false /\ stale_lookup h = false /\
+  in_scope h = true /\ key_collision h = false /\ stale_lookup h = false /\
   run h = Some [[]; [EAdded 1 (str n_a) (str ip1)]; []; []; [EFound (str n_a) (str ip1) (Some 40%Z)];
                 [EExpired 1 (str n_a)]; [ENotFound]; [ENotFound]].
 Proof. vm_compute. auto 6. Qed.
